@@ -85,6 +85,10 @@ type Op struct {
 	HashRef int        `json:"hash_ref,omitempty"`
 	Val     []byte     `json:"val,omitempty"`
 	CrashK  int        `json:"crash_k"` // -1 = no crash
+	// Blind (reopen): no read is issued on the freshly opened store before the next operation, so the
+	// first thing the new instance sees is a write (a store that only looks at the database lazily, or
+	// keeps state in memory, must still honour what is persisted)
+	Blind bool `json:"blind,omitempty"`
 }
 
 // heightOf resolves the height a save / setheight step refers to.
